@@ -559,6 +559,7 @@ package kafka
 //@   modifies heap
 //@   assume joins/syncs the group and runs one generation; afterwards the returned member id is the one the group holds (ghost $left: meaning lives in leaveGroup/run)
 //@   trust-ensures cg.$left == (len(result0) == 0)
+//@   callsite (*Generation).heartbeatLoop requires $1 == cg.config.HeartbeatInterval
 //@   callsite (*Generation).close modifies (&gen).$ended
 //@   callsite (*Generation).close ensures (&gen).$ended
 //@   ensures gen.ID == gen.ID ==> (&gen).$ended
@@ -1148,6 +1149,16 @@ package kafka
 //@   trusted logging
 //@ iface coordinator.readPartitions
 //@   trusted asks the coordinator connection for the partitions of the topics
+// Heartbeats are sent at the configured interval for as long as the generation lives: the loop is driven by a periodic
+// ticker whose period is the interval it was given (nextGeneration passes the configured HeartbeatInterval), every tick
+// sends one heartbeat, and the loop continues only after a heartbeat the coordinator accepted (a failed one ends it).
+//@ iface coordinator.heartbeat
+//@   trusted sends one Heartbeat request on the coordinator connection
+//@ func (*Generation).heartbeatLoop$1
+//@   option noframe
+//@   modifies heap
+//@   loop 0 invariant ticker != nil && ticker.$period == int(interval)
+//@   loop 0 step err == nil
 //@ func (*Generation).partitionWatcher$1
 //@   option noframe
 //@   modifies heap
